@@ -202,6 +202,7 @@ inductive Out where
   | int (v : Int)
   | ints (l : List Int)
   | groups (g : GroupsD)
+  | dump (g : GroupsD)
   | g2g (t : G2G)
   | kern (k : KernD)
   | bools (l : List Bool)
@@ -322,7 +323,7 @@ def stepLoaded (s : State) : Op → State × Out
   | .table .g2g2 => let r := getG2G2 s; (r.1, .g2g r.2)
   | .cached =>
     (s, .bools [s.cache.side1.isSome, s.cache.side2.isSome, s.cache.g2g1.isSome, s.cache.g2g2.isSome])
-  | .gdump => (s, .groups s.c.groups)
+  | .gdump => (s, .dump s.c.groups)
   | .kdump => (s, .kern s.c.kerning)
   | .reloadGroups =>
     -- `UFOReader(None)` raises TypeError for a font without a path
